@@ -379,6 +379,14 @@ def _component(ck, fx):
     ck.ob("R12.lookup", "scope ids come from a strictly increasing counter", not bad, "", "non-incrementing writes: %s" % (bad or "none"))
 
 
+def _flat(effs):
+    for e in effs:
+        yield e
+        if e["k"] in ("foreach", "loop"):
+            for bp in e.get("paths", []) + e.get("exits", []) + e.get("elem_fail", []):
+                yield from _flat(bp["eff"])
+
+
 def _lookup_shape(ck, name, paths, found_returns, miss):
     """foreach over scopes in REVERSE: probe locals with (scope, id); first hit returns."""
     problems = []
@@ -412,6 +420,24 @@ def _lookup_shape(ck, name, paths, found_returns, miss):
         hit_exits = [bp for bp in lp.get("exits", []) if bp["out"][0] == "ret"]
         if not hit_exits:
             problems.append("a hit does not end the search")
+    # every completed path must have performed the walk (no shortcut such as a memo table), and the
+    # component may consult only its scope stack and its slot map
+    for p in paths:
+        if p["out"][0] != "val":
+            continue
+        walked = any(e["k"] == "foreach" and e["args"][0][0] == "iter" and e["args"][0][1] == F("scopes") for e in p["eff"])
+        if not walked:
+            problems.append("a path answers without walking the scope stack (result %s) — stale or memoised resolution ignores later shadowing definitions" % fmt_term(p["out"][1])[:60])
+            break
+    foreign = set()
+    for p in paths:
+        for e in _flat(p["eff"]):
+            if e["k"] == "call" and len(e["args"]) > 1:
+                r = fmt_term(e["args"][1])
+                if "field(self, '" in r and "field(self, 'locals')" not in r and "field(self, 'scopes')" not in r:
+                    foreign.add(r[:60])
+    if foreign:
+        problems.append("consults other state than the scope stack and the slot map: %s" % sorted(foreign))
     if miss == "bind":
         done = [p for p in paths if p["out"][0] == "val" and not any(e.get("taken_exit") for e in p["eff"])]
         ok_bind = False
